@@ -263,8 +263,9 @@ impl<'a, T> ChordsV2<'a, T> {
             // Chords cannot activate right now, but chords that are already active must still
             // see the releases of their keys. Otherwise a participant released during this
             // window is never accounted for and the chord's action stays active forever.
+            // Only row 0 is real inputs; a virtual key with the same index is not a participant.
             for qd in self.queue.iter() {
-                if let Event::Release(_, j) = qd.event {
+                if let Event::Release(0, j) = qd.event {
                     release_key_from_active_chords(&mut self.active_chords, j);
                 }
             }
